@@ -391,7 +391,7 @@ def growth_cases(quick):
         for ret in (False, True):
             cases.append(("fanin-n%d-%s" % (n, "ret" if ret else "void"), fan_in(n, ret)))
     # struct sizes double per level, so towers stop where the byte size still fits comfortably in u32
-    for l in [2, 4, 8, 12, 16, 20, 24]:
+    for l in [2, 4, 8, 12, 16, 20, 24, 26, 27]:
         cases.append(("tower-l%d" % l, struct_tower(l)))
         cases.append(("tower-arr-l%d" % l, struct_tower(min(l, 12), via="array")))
         cases.append(("tower3-l%d" % l, struct_tower(min(l, 14), fan=3)))
